@@ -116,7 +116,7 @@ Proof. vm_compute. repeat split; reflexivity. Qed.
    boundary b k = byte offset of rune k.  Rune positions are nat.
    ================================================================================================ *)
 From Verif Require Import Base.Utf8 Gen.CodeGen Model.Offsets Model.Entry Proofs.Utf8Proofs
-  Proofs.EntryBase Proofs.EntryFilter Proofs.EntryProofs Proofs.EntryExamples.
+  Proofs.EntryBase Proofs.EntryFilter Proofs.EntryProofs Proofs.EntryBoundary Proofs.EntryExamples.
 
 (* (iii) byte-level search agrees with the rune-level fact.
    Self-synchronisation: a decoded rune other than U+FFFD stands in the string as its own UTF-8
@@ -192,9 +192,22 @@ Theorem C02_constructor_guarantees :
 Proof. exact enp_constructor. Qed.
 Print Assumptions C02_constructor_guarantees.
 
+(* (ii) a candidate answered by a filter the constructor built is the byte offset of a rune at or after
+   the start: the defensive validation of findStringPrefixCandidate (candidate < startAt, > len, not
+   on a boundary -> fall back to startAt) never fires, and the unvalidated use in MatchString /
+   matchStringAt decodes the candidate to a rune index. *)
+Theorem C02_candidate_is_rune_boundary_at_or_after_start :
+  forall (c : en_code) (f : en_filter),
+    en_new_filter c = Ok (Some f) ->
+    forall (b : list Z) (k0 : nat) (cand : Z), (k0 <= length (decode b))%nat ->
+      en_run_filter f b (Z.of_nat (boundary b k0)) = Ok (cand, true) ->
+      exists k', (k0 <= k' <= length (decode b))%nat /\ cand = Z.of_nat (boundary b k').
+Proof. exact enf_constructor_candidates_on_boundaries. Qed.
+Print Assumptions C02_candidate_is_rune_boundary_at_or_after_start.
+
 (* findStringPrefixCandidate (the filter call + its validation) from the byte offset of rune k:
    "no candidate" implies the engine finds nothing from k; otherwise the candidate is the byte offset
-   of a rune k' from which the engine finds exactly what it finds from k.
+   of a rune k' >= k from which the engine finds exactly what it finds from k.
    [enp_flt_hyp]: right-to-left (filter ignored), or no filter, or a filter with enf_ok, its fact at
    every match start, and an engine that is start independent (enp_start_indep). *)
 Theorem C02_candidate_sound_and_transparent :
@@ -203,7 +216,7 @@ Theorem C02_candidate_sound_and_transparent :
     enp_in_range M m_index search -> enp_flt_hyp M m_index search rtl flt -> (k <= length (decode b))%nat ->
     (en_prefix_candidate rtl flt b (Z.of_nat (boundary b k)) = Ok (0, false) /\
      search (runes_of b) (Z.of_nat k) = None) \/
-    (exists k', (k' <= length (decode b))%nat /\
+    (exists k', (k <= k' <= length (decode b))%nat /\
        en_prefix_candidate rtl flt b (Z.of_nat (boundary b k)) = Ok (Z.of_nat (boundary b k'), true) /\
        search (runes_of b) (Z.of_nat k') = search (runes_of b) (Z.of_nat k)).
 Proof. exact enp_prefix_candidate_sound. Qed.
